@@ -3,22 +3,36 @@
   C15.R1  every class that keeps a networkx graph freezes it at the end of its constructor (decided on the inlined view of the
           constructor by graph-mutation events: nothing modifies the graph after nx.freeze, which lies on every path to the exit);
           graph mutators are reachable only from the constructor; every module is registered as a node before the first edge is
-          created from the imports argument
+          created from the imports argument.  The order of construction events is read off a view in which helpers are expanded
+          and producer / consumer protocols over iterators are spelled as loops (c15_fusion.py: generator functions yielding
+          request records, itertools.chain, `[*a, *b]`, `xs.extend(gen)`, records dispatched by isinstance / match); an element
+          recorded in a *ledger* - a container from which a graph is materialised later (`for n in self._seen: g.add_node(n)`,
+          `g.add_edges_from(self._pending)`) - counts like the graph call it stands for
   C15.R2  nothing reachable from an evaluation entry point (public API: every concrete assert_applies, the query interface of the
           evaluable architecture) writes to the entry point's receiver, to its arguments or to anything reachable from them; decided
           by an ownership analysis (c15_roots.py) that knows fresh / owned / handed-in objects, independent of variable and helper
           names.  One kind of write is accepted: a self-rewrite `self.F = h(self.F)` that is idempotent (rebuilt only under a flag of
-          the old value which the rebuilt value clears) and does not look at the other arguments
+          the old value which the rebuilt value clears) and does not look at the other arguments.  A second kind is accepted when
+          C15.R4 proves it unobservable: filling a memo table by key.  A `functools.cached_property` that is not provably
+          unobservable counts as a write to its instance at the first read (an object created during the evaluation may cache
+          whatever it likes; the evaluable, a rule or anything they hold may not)
   C15.R3  unordered (set) iteration never reaches text without `sorted`; no container is both grown and shrunk inside one loop over
           an unordered collection (helpers expanded)
   C15.R4  no function writes class-level, module-level or escaping-closure state, also not through an alias; no observable cache
-          (memoised functions are accepted only when they are pure functions of immutable arguments with an immutable result)
+          (memoised functions are accepted only when they are pure functions of immutable arguments with an immutable result;
+          per instance - lru_cache on a method, cached_property - when they read nothing but state that is fixed once the
+          constructor has finished and cannot run before that).  Instance tables that evaluations fill by key (c15_memo.py) are
+          memos nobody can observe when they are keyed completely (data and control dependences of the stored value), filled
+          after construction only, from state no evaluation assigns, only ever used by key, with immutable or copied values; a
+          stored value that depends on a parameter missing from the key is reported
   C15.R5  order-independent selection (c15_selection.py): in a loop (for / worklist) over a collection whose order is not part of
           the contract - a set, a directory listing (iterdir / glob / listdir / scandir / walk), a sequence in the order in which a
           caller of the public API listed its items - no keep-or-drop decision reads what earlier iterations of the same loop have
           accumulated, except de-duplication on the element's own identity; a seen-set keyed by a derived value while the element
           is kept, or any other test against the kept-so-far collection, is reported.  Sorted input and tests against a collection
-          that is complete before the loop are order independent
+          that is complete before the loop are order independent.  Helpers that test and set (`if not self._register(name):
+          continue`) are expanded where they are called; a de-duplication on a derived key counts only when what is kept is
+          control dependent on its outcome (its branches, what follows an early exit, later tests of flags set there)
 
 Anchors are public API names (assert_applies, get_dependencies, ... , the constructor signature (modules, imports, ...)), library
 names (networkx.freeze, DiGraph.add_node / add_edge, dataclasses.replace, functools.lru_cache) and types - never private helpers,
@@ -37,6 +51,7 @@ from core.loader import AnalysisError, FuncInfo, Repo, ancestors, calls_in, head
 from core.report import Result
 from core.types import is_set_type, members
 
+from .c15_fusion import fused_view
 from .c15_roots import FRESH, EffectSummaries, Roots
 from .common import callees_of, cfg_of, dotted, guard_formula, iter_sources, loops_around, reachable_funcs, stmt_of, types_of, where
 
@@ -158,17 +173,22 @@ def graph_mutations(repo: Repo) -> list[tuple[FuncInfo, ast.AST, str, ast.AST]]:
 
 def _closure(repo: Repo, seeds: set[FuncInfo]) -> set[FuncInfo]:
     """Functions from which one of `seeds` is reachable through resolved calls."""
+    key = "_c15_callers"
+    if key not in repo.__dict__:
+        rev: dict[FuncInfo, list[FuncInfo]] = {}
+        for f in repo.all_functions():
+            for g in callees_of(repo, f, False):
+                rev.setdefault(g, []).append(f)
+        repo.__dict__[key] = rev
+    rev = repo.__dict__[key]
     out = set(seeds)
-    changed = True
-    funcs = repo.all_functions()
-    while changed:
-        changed = False
-        for f in funcs:
-            if f in out:
-                continue
-            if any(g in out for g in callees_of(repo, f, False)):
+    work = list(seeds)
+    while work:
+        g = work.pop()
+        for f in rev.get(g, ()):
+            if f not in out:
                 out.add(f)
-                changed = True
+                work.append(f)
     return out
 
 
@@ -189,13 +209,254 @@ def _own_exprs(s: ast.AST) -> list[ast.AST]:
     return [s]
 
 
+# ---- ledgers: containers in which the construction records nodes / edges before a graph is materialised from them
+
+LEDGER_GROWERS = {"append", "add", "setdefault", "update", "extend", "insert", "appendleft", "extendleft"}
+_VIEW_METHODS = {"items", "keys", "values", "copy"}
+_COPY_FUNCS = {"sorted", "list", "tuple", "set", "frozenset", "enumerate", "reversed", "iter", "dict"}
+
+
+def _ledger_base(e: ast.AST) -> ast.AST:
+    """The container an iterable expression enumerates: `d.items()`, `sorted(d)`, `list(d.values())` -> `d`."""
+    while True:
+        if isinstance(e, ast.Call) and isinstance(e.func, ast.Attribute) and e.func.attr in _VIEW_METHODS and not e.args:
+            e = e.func.value
+        elif isinstance(e, ast.Call) and isinstance(e.func, ast.Name) and e.func.id in _COPY_FUNCS and e.args and not isinstance(e.args[0], ast.Starred):
+            e = e.args[0]
+        elif isinstance(e, ast.Starred):
+            e = e.value
+        else:
+            return e
+
+
+def _containerish(T, f: FuncInfo, e: ast.AST) -> bool:
+    try:
+        ms = members(T.expr(f, e))
+    except Exception:  # noqa: BLE001
+        return True
+    return all(m == ("unknown",) or (m[0] == "b" and m[1] in ("list", "dict", "set", "frozenset", "seq", "tuple", "iter")) or (m[0] == "lib" and m[1].startswith("collections.")) for m in ms)
+
+
+def _ledger_keys(repo: Repo, T, f: FuncInfo, base: ast.AST) -> list[tuple]:
+    """Identity of a container expression: a local of this function, or the attribute of (the classes of) an object."""
+    if isinstance(base, ast.Name):
+        return [("local", f.fq, base.id)] if _containerish(T, f, base) else []
+    if isinstance(base, ast.Attribute) and _containerish(T, f, base):
+        try:
+            ms = members(T.expr(f, base.value))
+        except Exception:  # noqa: BLE001
+            ms = []
+        out = []
+        for m in ms:
+            if m[0] == "cls" and m[1] in repo.classes:
+                ci = repo.classes[m[1]]
+                out += [("attr", c.fq, base.attr) for c in {*repo.mro(ci), *repo.subclasses(ci)} if c.fq in repo.classes]
+        return out
+    return []
+
+
+def _grow_writes(n: ast.AST) -> list[tuple[ast.AST, ast.AST]]:
+    """(container expression, written node) for a node that adds something to a container."""
+    if isinstance(n, ast.Call) and isinstance(n.func, ast.Attribute) and n.func.attr in LEDGER_GROWERS:
+        return [(n.func.value, n)]
+    if isinstance(n, (ast.Assign, ast.AnnAssign)) and getattr(n, "value", None) is not None:
+        tg = n.targets if isinstance(n, ast.Assign) else [n.target]
+        return [(el.value, n) for t in tg for el in (t.elts if isinstance(t, (ast.Tuple, ast.List)) else [t]) if isinstance(el, ast.Subscript)]
+    if isinstance(n, ast.AugAssign) and isinstance(n.op, (ast.Add, ast.BitOr)):
+        if isinstance(n.target, ast.Subscript):
+            return [(n.target.value, n)]
+        if isinstance(n.target, (ast.Name, ast.Attribute)):
+            return [(n.target, n)]
+    return []
+
+
+class Ledgers:
+    """Containers whose elements become nodes / edges of a networkx graph later on (`for n in self._seen: graph.add_node(n)`,
+    `graph.add_edges_from(self._pending)`, also through a second container): writing to such a container is the construction
+    event the later graph call merely replays, in the container's (insertion) order."""
+
+    def __init__(self, repo: Repo, T) -> None:
+        self.repo = repo
+        self.T = T
+        self.kinds: dict[tuple, set[str]] = {}
+
+    def kinds_of(self, f: FuncInfo, container: ast.AST) -> set[str]:
+        out: set[str] = set()
+        for k in _ledger_keys(self.repo, self.T, f, container):
+            out |= self.kinds.get(k, set())
+        return out
+
+    def write_keys(self, f: FuncInfo, n: ast.AST) -> list[tuple]:
+        """Identities of the containers the statement / call `n` of `f` adds something to."""
+        out: list[tuple] = []
+        for cont, _w in _grow_writes(n):
+            out += _ledger_keys(self.repo, self.T, f, cont)
+        return out
+
+    def mixed(self, key: tuple) -> bool:
+        """Nodes and edges travel through this one container: replaying it keeps their relative order."""
+        return {"node", "edge"} <= self.kinds.get(key, set())
+
+    def write_kinds(self, f: FuncInfo, n: ast.AST) -> set[str]:
+        """Kinds ('node' / 'edge') of graph elements the statement / call `n` of `f` records in a ledger."""
+        out: set[str] = set()
+        if not self.kinds:
+            return out
+        for cont, _w in _grow_writes(n):
+            out |= self.kinds_of(f, cont)
+        return out
+
+    def discover(self, v: FuncInfo) -> bool:
+        """Looks at one function (view): which containers are enumerated around a graph call / ledger write.  True when new."""
+        T, repo = self.T, self.repo
+        changed = False
+        for n in own_nodes(v.node):
+            kinds: set[str] = set()
+            bulk: list[ast.AST] = []
+            if isinstance(n, ast.Call) and isinstance(n.func, ast.Attribute) and _graph_call(T, v, n):
+                a = n.func.attr
+                if a in NODE_ADDERS:
+                    kinds = {"node"}
+                elif a in EDGE_ADDERS:
+                    kinds = {"edge"}
+                if a in ("add_nodes_from", "add_edges_from", "add_weighted_edges_from") and n.args:
+                    bulk = [n.args[0]]
+            if not kinds:
+                kinds = self.write_kinds(v, n)
+                if kinds and isinstance(n, ast.Call) and n.func.attr in ("update", "extend", "extendleft") and n.args:  # type: ignore[union-attr]
+                    bulk = [n.args[0]]
+            if not kinds:
+                continue
+            sources = [*bulk]
+            for lp in loops_around(n, v.node):
+                sources += [it for _t, it in iter_sources(lp)]
+            for it in sources:
+                base = _ledger_base(it)
+                if isinstance(base, (ast.GeneratorExp, ast.ListComp, ast.SetComp)):
+                    bases = [_ledger_base(g.iter) for g in base.generators]
+                else:
+                    bases = [base]
+                for b in bases:
+                    for k in _ledger_keys(repo, T, v, b):
+                        have = self.kinds.setdefault(k, set())
+                        if not kinds <= have:
+                            have |= kinds
+                            changed = True
+        return changed
+
+
+def _ledger_event_kinds(led: "Ledgers", reg: "Registries", f: FuncInfo, n: ast.AST) -> set[str]:
+    """Event kinds of a statement / call that adds something to a container:
+      rnode  the container is a registry the edge decisions consult (the element is registered when it is put there);
+      lnode  a node travels through a ledger that also carries the edges (replayed in order), or nothing is known about what the
+             edge decisions consult;
+      ledge  an edge is recorded in a ledger."""
+    out: set[str] = set()
+    for k in led.write_keys(f, n):
+        kinds = led.kinds.get(k, set())
+        if k in reg.keys:
+            out.add("rnode")
+        if "edge" in kinds:
+            out.add("ledge")
+        if "node" in kinds and (led.mixed(k) or not reg.known):
+            out.add("lnode")
+    return out
+
+
+class Registries:
+    """What the decision to create an edge consults: the graph (`g.has_node(a)`, `a in g`) and / or containers (`a in self._seen`),
+    read off the path conditions of the edge events (boolean helpers followed one level).  A module counts as registered when
+    the consulted registry has it - not when it has been put on some list that is turned into nodes later."""
+
+    def __init__(self) -> None:
+        self.graph = False
+        self.keys: set[tuple] = set()
+
+    @property
+    def known(self) -> bool:
+        return self.graph or bool(self.keys)
+
+    def collect(self, repo: Repo, T, f: FuncInfo, e: ast.AST, depth: int = 0) -> None:
+        for x in ast.walk(e):
+            target = None
+            if isinstance(x, ast.Call) and isinstance(x.func, ast.Attribute) and x.func.attr in ("has_node", "__contains__"):
+                target = x.func.value
+            elif isinstance(x, ast.Compare) and len(x.ops) == 1 and isinstance(x.ops[0], (ast.In, ast.NotIn)):
+                target = x.comparators[0]
+            elif isinstance(x, ast.Call) and depth < 2:
+                try:
+                    cs, _how = T.callees(f, x, byname_fallback=False)
+                except Exception:  # noqa: BLE001
+                    cs = []
+                for h in cs:
+                    if not h.is_abstract and not isinstance(h.node, ast.Lambda):
+                        for st in h.node.body:
+                            self.collect(repo, T, h, st, depth + 1)
+            if target is None:
+                continue
+            if _through_digraph(T, f, target):
+                self.graph = True
+            else:
+                self.keys |= set(_ledger_keys(repo, T, f, _ledger_base(target)))
+
+
+def _registries(repo: Repo, T, led: "Ledgers", funcs: list[FuncInfo]) -> Registries:
+    from core.guards import atoms_of
+
+    reg = Registries()
+    for f in funcs:
+        try:
+            v = inline_view(repo, f, T)
+        except Exception:  # noqa: BLE001
+            continue
+        for n in own_nodes(v.node):
+            edge = isinstance(n, ast.Call) and isinstance(n.func, ast.Attribute) and n.func.attr in EDGE_ADDERS and _graph_call(T, v, n)
+            if not edge and not (_grow_writes(n) and "edge" in led.write_kinds(v, n)):
+                continue
+            try:
+                atoms = atoms_of(guard_formula(v, n))
+            except Exception:  # noqa: BLE001
+                continue
+            for a in atoms:
+                try:
+                    reg.collect(repo, T, v, ast.parse(a, mode="eval").body)
+                except SyntaxError:
+                    continue
+    return reg
+
+
 def _graph_closures(repo: Repo) -> dict:
     key = "_c15_graph_closures"
     if key not in repo.__dict__:
+        T = types_of(repo)
         muts = graph_mutations(repo)
         kind_funcs = {k: _closure(repo, {f for f, _n, kk, _r in muts if kk == k}) for k in ("node", "edge", "other")}
         freezers = {f for f in repo.all_functions() for c in calls_in(f.node) if _lib_name(repo, f, c) == "networkx.freeze"}
-        repo.__dict__[key] = {"muts": muts, "kind_funcs": kind_funcs, "freeze_funcs": _closure(repo, freezers)}
+        # ledgers: found in the functions that take part in a construction (callers of graph calls), seen through their views
+        led = Ledgers(repo, T)
+        builders = [f for f in repo.all_functions() if (f in kind_funcs["node"] or f in kind_funcs["edge"]) and not isinstance(f.node, ast.Lambda)]
+        for _round in range(3):
+            changed = False
+            for f in builders:
+                try:
+                    changed |= led.discover(inline_view(repo, f, T))
+                except Exception:  # noqa: BLE001
+                    continue
+            if not changed:
+                break
+        reg = _registries(repo, T, led, [f for f in repo.all_functions() if f in kind_funcs["edge"] and not isinstance(f.node, ast.Lambda)])
+        writers: dict[str, set[FuncInfo]] = {"lnode": set(), "ledge": set(), "rnode": set()}
+        attr_names = {k[2] for k in led.kinds if k[0] == "attr"} | {k[2] for k in reg.keys if k[0] == "attr"}
+        if attr_names:
+            for f in repo.all_functions():
+                for n in own_nodes(f.node):
+                    for cont, _w in _grow_writes(n):
+                        if isinstance(cont, ast.Attribute) and cont.attr in attr_names:
+                            for kd in _ledger_event_kinds(led, reg, f, n):
+                                writers[kd].add(f)
+        for k, fs in writers.items():
+            kind_funcs[k] = _closure(repo, fs) if fs else set()
+        repo.__dict__[key] = {"muts": muts, "kind_funcs": kind_funcs, "freeze_funcs": _closure(repo, freezers), "ledgers": led, "registries": reg}
     return repo.__dict__[key]
 
 
@@ -207,11 +468,24 @@ class GraphBuild:
         self.repo = repo
         self.fn = fn
         self.T = types_of(repo)
-        self.view = inline_view(repo, fn, self.T)
+        # helpers expanded, then producer / consumer protocols over iterators (generators, itertools.chain) spelled as loops
+        plain = inline_view(repo, fn, self.T)
+        try:
+            self.view = fused_view(repo, plain, self.T)
+        except Exception:  # noqa: BLE001 - a protocol the rewriting cannot express: the plain view is still a sound basis
+            self.view = plain
         self.cfg = cfg_of(self.view)
         cl = _graph_closures(repo)
         self.kind_funcs = cl["kind_funcs"]
         self.freeze_funcs = cl["freeze_funcs"]
+        self.ledgers: Ledgers = cl["ledgers"]
+        self.registries: Registries = cl["registries"]
+        for _round in range(3):  # ledgers that are locals of this very view
+            try:
+                if not self.ledgers.discover(self.view):
+                    break
+            except Exception:  # noqa: BLE001
+                break
         self.ev = {s: self.events(s) for s in self.cfg.stmts()}
 
     def callees(self, c: ast.Call) -> list[FuncInfo]:
@@ -233,6 +507,9 @@ class GraphBuild:
                         for el in (t.elts if isinstance(t, (ast.Tuple, ast.List)) else [t]):
                             if isinstance(el, (ast.Subscript, ast.Attribute)) and _through_digraph(T, v, el.value):
                                 out.setdefault("other", []).append(c)  # type: ignore[arg-type]
+                if (isinstance(c, ast.Call) or c is s) and _grow_writes(c):
+                    for kd in sorted(_ledger_event_kinds(self.ledgers, self.registries, v, c)):
+                        out.setdefault(kd, []).append(c)  # type: ignore[arg-type]
                 if not isinstance(c, ast.Call):
                     continue
                 if _lib_name(self.repo, v, c) == "networkx.freeze":
@@ -280,6 +557,16 @@ def _derived(v: FuncInfo, seed: str) -> set[str]:
                     if key is not None and key not in d:
                         d.add(key)
                         changed = True
+            # a container filled once per element of a derived collection holds (a projection of) it as well
+            for cont, w in _grow_writes(n):
+                key = cont.id if isinstance(cont, ast.Name) else norm(cont) if isinstance(cont, ast.Attribute) else None
+                if key is None or key in d:
+                    continue
+                per_element = any(mentions(it) for lp in loops_around(w, v.node) for _t, it in iter_sources(lp))
+                bulk = isinstance(w, ast.Call) and w.func.attr in ("extend", "update", "extendleft") and any(mentions(a) for a in w.args)  # type: ignore[union-attr]
+                if per_element or bulk:
+                    d.add(key)
+                    changed = True
     return d
 
 
@@ -312,8 +599,8 @@ def _elem_classes(t) -> set[str] | None:
     return out if known else None
 
 
-def _unit_over(v: FuncInfo, call: ast.Call, d: set[str], repo: Repo, T, by_class: set[str] | None = None) -> ast.AST | None:
-    """Outermost statement that makes `call` happen once per element of a collection derived from `d`: an enclosing loop or
+def _unit_over(v: FuncInfo, call: ast.AST, d: set[str], repo: Repo, T, by_class: set[str] | None = None) -> ast.AST | None:
+    """(`call` is a call, or a statement that stores into a ledger.)  Outermost statement that makes `call` happen once per element of a collection derived from `d`: an enclosing loop or
     comprehension over it, a bulk call taking it as argument, or a call of a helper that loops over it.  With `by_class`, a loop
     whose element type is known counts exactly when its elements are instances of one of these classes (the data flow is only
     consulted for untyped iterables): aggregates holding both arguments do not blur the picture."""
@@ -335,6 +622,8 @@ def _unit_over(v: FuncInfo, call: ast.Call, d: set[str], repo: Repo, T, by_class
                 unit = lp if isinstance(lp, (ast.For, ast.AsyncFor)) else stmt_of(lp)
     if unit is not None:
         return unit
+    if not isinstance(call, ast.Call):
+        return None
     if any(over(a) for a in [*call.args, *[k.value for k in call.keywords]]):
         return stmt_of(call)
     attrs = {x.split(".", 1)[1] for x in d if x.startswith("self.")}
@@ -412,6 +701,87 @@ def freeze_verdict(repo: Repo, fn: FuncInfo, depth: int = 0, stack: tuple = ()) 
     return "ok", "nx.freeze(graph) is passed on every path to the end of the construction and nothing modifies the graph afterwards", final[0]
 
 
+def order_verdict(repo: Repo, fn: FuncInfo, mod_param: str, imp_param: str, imp_classes: set[str] | None, depth: int = 0) -> tuple[str, str, tuple]:
+    """('ok' | 'violated' | 'undecided', detail, (function, node)): in `fn` every element of the modules parameter is registered as
+    a node (in the graph or in a node ledger) before the first edge is created per element of the imports parameter.  A single
+    call that does both is followed into its callee (parameters mapped by position / keyword)."""
+    T = types_of(repo)
+    gb = GraphBuild(repo, fn)
+    v, cfg, ev = gb.view, gb.cfg, gb.ev
+    d_mod, d_imp = _derived(v, mod_param), _derived(v, imp_param)
+    node_units: list[ast.AST] = []
+    edge_units: list[ast.AST] = []
+    # an element recorded in a ledger (a container the graph is materialised from later) counts like the graph call
+    for s, e in ev.items():
+        for c in [*e.get("edge", []), *e.get("ledge", [])]:
+            u = _unit_over(v, c, d_imp, repo, T, imp_classes)
+            if u is not None and u not in edge_units:
+                edge_units.append(u)
+    # ledgers that the import edges travel through as well: a node request put there is registered in its turn, before the edge
+    # requests that follow it (a list of modules that is turned into nodes later is no such ledger)
+    shared: set[tuple] = set()
+    for s, e in ev.items():
+        for c in e.get("ledge", []):
+            if _grow_writes(c) and _unit_over(v, c, d_imp, repo, T, imp_classes) is not None:
+                shared |= set(gb.ledgers.write_keys(v, c))
+
+    def in_turn(c: ast.AST) -> bool:
+        keys = gb.ledgers.write_keys(v, c) if _grow_writes(c) else []
+        return not keys or not gb.registries.known or bool(set(keys) & shared)
+
+    opaque: list[tuple[ast.AST, ast.AST]] = []  # simple statements that register modules *and* create import edges (statement, call)
+    for s, e in ev.items():
+        # a module is registered when the registry the edge decisions consult gets it: the graph itself (add_node), a container
+        # (`self._seen`); a node request travelling through a ledger that carries the edge requests too is registered in its turn
+        direct = e.get("node", []) if (gb.registries.graph or not gb.registries.known) else []
+        for c in [*direct, *e.get("rnode", []), *[x for x in e.get("lnode", []) if in_turn(x)]]:
+            u = _unit_over(v, c, d_mod, repo, T)
+            if u is not None and not isinstance(u, (ast.For, ast.AsyncFor, ast.While)) and any(u is x for x in edge_units) and all(u is not o for o, _c in opaque):
+                opaque.append((u, c))
+            if u is not None and u not in node_units and not any(u is x or x in list(ancestors(u)) for x in edge_units):
+                node_units.append(u)
+    if not edge_units:
+        return "undecided", f"no statement of {fn.qualname} creates edges per element of `{imp_param}`: the import loop was not recognised", (fn, fn.node)
+
+    def complete(u: ast.AST) -> bool:
+        # the registration loop runs to its end: no break of its own
+        if not isinstance(u, (ast.For, ast.AsyncFor)):
+            return True
+        for b in ast.walk(u):
+            if isinstance(b, ast.Break):
+                inner = next((a for a in ancestors(b) if isinstance(a, (ast.For, ast.AsyncFor, ast.While))), None)
+                if inner is u:
+                    return False
+        return True
+
+    good = [u for u in node_units if complete(u) and all(u is not e and u not in list(ancestors(e)) and cfg.dominates(u, e) for e in edge_units)]
+    if good:
+        return "ok", f"every module of `{mod_param}` is registered as a node (`{header(good[0])}`) before the first edge is created from `{imp_param}`", (fn, edge_units[0])
+    if opaque:
+        # one call does both: the order is a property of the callee
+        st, call = opaque[0]
+        if isinstance(call, ast.Call) and depth < 3 and all(e is st for e in edge_units):
+            try:
+                cs, _how = T.callees(v, call, byname_fallback=False)
+            except Exception:  # noqa: BLE001
+                cs = []
+            cs = [g for g in cs if not g.is_abstract and not isinstance(g.node, ast.Lambda)]
+            if len(cs) == 1:
+                g = cs[0]
+                a = g.node.args
+                pos = [p.arg for p in [*a.posonlyargs, *a.args]]
+                if Roots.self_name(g) is not None and pos:
+                    pos = pos[1:]
+                bound: dict[str, ast.expr] = dict(zip(pos, [x for x in call.args if not isinstance(x, ast.Starred)]))
+                bound.update({k.arg: k.value for k in call.keywords if k.arg})
+                gm = [p for p, x in bound.items() if _mentions(x, d_mod) and not _mentions(x, d_imp)]
+                gi = [p for p, x in bound.items() if _mentions(x, d_imp) and not _mentions(x, d_mod)]
+                if len(gm) == 1 and len(gi) == 1:
+                    return order_verdict(repo, g, gm[0], gi[0], imp_classes, depth + 1)
+        return "undecided", f"`{header(st)}` registers the modules of `{mod_param}` and creates the edges of `{imp_param}` inside one expression: their order cannot be seen", (fn, st)
+    return "violated", f"import edges (`{header(edge_units[0])}`) are created before all modules of `{mod_param}` are nodes: the has_node guard makes the edge set depend on the order of imports/modules", (fn, edge_units[0])
+
+
 def run_r1(repo: Repo, res: Result) -> None:
     T = types_of(repo)
     R = _roots(repo)
@@ -445,15 +815,12 @@ def run_r1(repo: Repo, res: Result) -> None:
             res.undecide("C15.R1", key, detail, where(init, node or init.node))
         else:
             res.add("C15.R1", key, verdict == "ok", detail, where(init, init.node), kind="dominance")
-        gb = GraphBuild(repo, init)
-        v, cfg, ev = gb.view, gb.cfg, gb.ev
         # nodes before import edges
         params = [p for p in init.param_names if p != Roots.self_name(init)]
         okey = f"{init.relpath}::{init.qualname}::nodes before edges"
         if len(params) < 2:
             res.undecide("C15.R1", okey, "the constructor does not take (modules, imports): cannot tell module registration from import edges")
         else:
-            d_mod, d_imp = _derived(v, params[0]), _derived(v, params[1])
             # the imports argument is recognised by the class of its elements where the annotation tells it
             imp_classes: set[str] | None = None
             ec = _elem_classes(T.param_type(init, params[1]))
@@ -463,42 +830,11 @@ def run_r1(repo: Repo, res: Result) -> None:
                     ci = repo.classes.get(fq)
                     if ci is not None:
                         imp_classes |= {c.fq for c in repo.mro(ci)} | {c.fq for c in repo.subclasses(ci)}
-            node_units: list[ast.AST] = []
-            edge_units: list[ast.AST] = []
-            for s, e in ev.items():
-                for c in e.get("edge", []):
-                    u = _unit_over(v, c, d_imp, repo, T, imp_classes)
-                    if u is not None and u not in edge_units:
-                        edge_units.append(u)
-            for s, e in ev.items():
-                for c in e.get("node", []):
-                    u = _unit_over(v, c, d_mod, repo, T)
-                    if u is not None and u not in node_units and not any(u is x or x in list(ancestors(u)) for x in edge_units):
-                        node_units.append(u)
-            if not edge_units:
-                res.undecide("C15.R1", okey, f"no statement of the constructor creates edges per element of `{params[1]}`: the import loop was not recognised", where(init, init.node))
+            verdict, detail, (wf, wn) = order_verdict(repo, init, params[0], params[1], imp_classes)
+            if verdict == "undecided":
+                res.undecide("C15.R1", okey, detail, where(wf, wn))
             else:
-                def complete(u: ast.AST) -> bool:
-                    # the registration loop runs to its end: no break of its own
-                    if not isinstance(u, (ast.For, ast.AsyncFor)):
-                        return True
-                    for b in ast.walk(u):
-                        if isinstance(b, ast.Break):
-                            inner = next((a for a in ancestors(b) if isinstance(a, (ast.For, ast.AsyncFor, ast.While))), None)
-                            if inner is u:
-                                return False
-                    return True
-
-                good = [u for u in node_units if complete(u) and all(u is not e and u not in list(ancestors(e)) and cfg.dominates(u, e) for e in edge_units)]
-                ok = bool(good)
-                res.add(
-                    "C15.R1",
-                    okey,
-                    ok,
-                    f"every module of `{params[0]}` is registered as a node (`{header(good[0])}`) before the first edge is created from `{params[1]}`" if ok else f"import edges (`{header(edge_units[0])}`) are created before all modules of `{params[0]}` are nodes: the has_node guard makes the edge set depend on the order of imports/modules",
-                    where(init, edge_units[0]),
-                    kind="dominance",
-                )
+                res.add("C15.R1", okey, verdict == "ok", detail, where(wf, wn), kind="dominance")
     # who may modify a graph after construction: nothing that an evaluation or a public method of a graph holder can reach
     public = [m for g in holders for c in R.hierarchy(g) for m in c.methods.values() if m not in inits and (not m.name.startswith("_") or (m.name.startswith("__") and m.name not in ("__init__", "__post_init__")))]
     outside = reachable_funcs(repo, [*public, *roots], byname=True, stop={i.fq for i in inits})
@@ -508,7 +844,11 @@ def run_r1(repo: Repo, res: Result) -> None:
     for f, c, _k, recv in muts:
         rv = R.value(f, recv)
         if rv.obj and rv.only_fresh:
-            continue  # a private graph created in this very function
+            # a private graph created in this very call (a builder's local, a copy made for drawing): it cannot be a graph that
+            # an earlier construction has frozen and handed to an evaluable
+            n_sites += 1
+            res.add("C15.R1", repo.key(f, stmt_of(c)), True, "the graph modified here is created in the same call: no long-lived graph is touched", where(f, c), kind="effect")
+            continue
         n_sites += 1
         ok = f not in outside
         path = outside.get(f)
@@ -530,7 +870,33 @@ def run_r1(repo: Repo, res: Result) -> None:
 def _eval_reach(repo: Repo) -> dict:
     key = "_c15_eval_reach"
     if key not in repo.__dict__:
-        repo.__dict__[key] = reachable_funcs(repo, evaluation_roots(repo), byname=True)
+        reach = reachable_funcs(repo, evaluation_roots(repo), byname=True)
+        # the shared call graph follows reads of `@property`; reads of `@functools.cached_property` call their function as well
+        cached = {}
+        for ci in repo.classes.values():
+            for m in ci.methods.values():
+                if "cached_property" in m.decorators:
+                    cached.setdefault(m.name, []).append(m)
+        if cached:
+            T = types_of(repo)
+            work = list(reach)  # (types_of / reachable_funcs do not raise on shapes they cannot resolve: they answer "unknown")
+            while work:
+                g = work.pop()
+                for n in own_nodes(g.node):
+                    if isinstance(n, ast.Attribute) and isinstance(n.ctx, ast.Load) and n.attr in cached:
+                        try:
+                            ms = members(T.expr(g, n.value))
+                        except Exception:  # noqa: BLE001
+                            ms = []
+                        known = {m[1] for m in ms if m[0] == "cls"}
+                        for f in cached[n.attr]:
+                            related = {c.fq for c in repo.mro(f.cls)} | {c.fq for c in repo.subclasses(f.cls)}
+                            if (not known or known & related) and f not in reach:
+                                for h, path in reachable_funcs(repo, [f], byname=True).items():
+                                    if h not in reach:
+                                        reach[h] = reach[g] + path
+                                        work.append(h)
+        repo.__dict__[key] = reach
     return repo.__dict__[key]
 
 
@@ -538,6 +904,30 @@ def _roots(repo: Repo) -> Roots:
     key = "_c15_roots"
     if key not in repo.__dict__:
         repo.__dict__[key] = Roots(repo, types_of(repo))
+    return repo.__dict__[key]
+
+
+def memo_engine(repo: Repo, reach=None):
+    """The classifier of c15_memo.py for this tree (region: the functions reachable from the evaluation entry points)."""
+    from .c15_memo import Memos
+
+    key = "_c15_memo_engine"
+    if key not in repo.__dict__:
+        region = list(reach if reach is not None else _eval_reach(repo))
+        repo.__dict__[key] = Memos(repo, types_of(repo), _roots(repo), region, lambda g, c: _lib_name(repo, g, c))
+    return repo.__dict__[key]
+
+
+def memo_tables(repo: Repo, reach=None) -> list:
+    """Instance tables filled by keyed stores during evaluations, each judged (c15_memo.py): memo | violated | other."""
+    key = "_c15_memos"
+    if key not in repo.__dict__:
+        try:
+            repo.__dict__[key] = memo_engine(repo, reach).tables()
+        except AnalysisError:
+            raise
+        except Exception:  # noqa: BLE001 - an unusual shape the classifier cannot read: nothing is accepted, C15.R2 judges every write
+            repo.__dict__[key] = []
     return repo.__dict__[key]
 
 
@@ -856,6 +1246,14 @@ def run_r2(repo: Repo, res: Result) -> None:
             rewrites.append(rw)
             if rw.verdict != "violated":
                 accepted |= {id(node) for _fi, node in rw.stores}
+    # cached properties that are not provably unobservable write to their instance on first access
+    for m in memoised(repo):
+        if m["harmless"] is None:
+            R.register_cached_property(m["f"])
+    # second accepted kind of write: filling a memo table nobody can observe (judged by C15.R4, c15_memo.py)
+    for mt in memo_tables(repo):
+        if mt.verdict == "memo":
+            accepted |= mt.nodes
     S = EffectSummaries(repo, T, R, list(reach), skip=lambda w: id(w.node) in accepted)
     for r in roots:
         mine = [e for e in S.of(r) if e.tag[0][0] in ("self", "param") and e.tag[0][1] == r.fq]
@@ -963,6 +1361,62 @@ class _OrderFlow(Flow):
             self._join_into(self.ret_tags, fi.fq, self._expr(fi, e.value, env))
             return frozenset()
         return super()._expr_inner(fi, e, env)
+
+    def _analyse(self, fi) -> None:
+        """core/flow.py binds the target of a `for` weakly (old tags | element tags) at the loop header, for the body as well as for
+        the code after the loop.  Inside the body the target is always freshly bound: a loop variable that re-uses the name of an
+        unordered collection (`group = list(a_set)` ... `for group in sorted_groups:`) is what the iterable yields and nothing
+        else.  Same worklist as the base class; the body edge of a loop gets the strongly updated state, the exit edge the weak one."""
+        from core.cfg import ENTRY
+
+        cfg = self.cfg(fi)
+        init: dict[str, frozenset] = {}
+        for p in fi.param_names:
+            t = self.param_tags.get((fi.fq, p), frozenset())
+            if t:
+                init[p] = t
+        if not hasattr(self, "_final_env"):
+            self._final_env = {}
+        if fi.outer is not None:
+            for k, v in self._final_env.get(fi.outer.fq, {}).items():
+                init.setdefault(k, v)
+        states: dict[object, dict[str, frozenset]] = {ENTRY: init}
+        work = [ENTRY]
+        order = 0
+        final_env: dict[str, frozenset] = dict(init)
+        while work:
+            n = work.pop()
+            order += 1
+            if order > 20000:
+                break
+            st = states.get(n, {})
+            out = dict(st)
+            body_out = None
+            if isinstance(n, ast.AST):
+                for var, t in st.items():
+                    self.var_at[(id(n), var)] = t
+                self._stmt(fi, n, out)
+                if isinstance(n, (ast.For, ast.AsyncFor)):
+                    body_out = dict(st)
+                    self._assign(fi, n.target, self._it(self._expr(fi, n.iter, body_out)), body_out, n.iter)
+                for k, v in out.items():
+                    if v:
+                        final_env[k] = final_env.get(k, frozenset()) | v
+            for m in cfg.g.successors(n):
+                o = body_out if body_out is not None and cfg.g[n][m].get("labels") == {True} else out
+                old = states.get(m)
+                if old is None:
+                    states[m] = dict(o)
+                    work.append(m)
+                else:
+                    changed = False
+                    for k, v in o.items():
+                        if not v <= old.get(k, frozenset()):
+                            old[k] = old.get(k, frozenset()) | v
+                            changed = True
+                    if changed:
+                        work.append(m)
+        self._final_env[fi.fq] = final_env
 
     def _yield_in_unordered_loop(self, fi, node) -> bool:
         for a in ancestors(node):
@@ -1230,7 +1684,7 @@ def run_r3(repo: Repo, res: Result, order: "Order | None" = None) -> None:
         good_loops = {l["f"].name for l in fo.loops() if not l["both"]} - bad_loops
         want_bad_sinks = {"joined_directly", "joined_after_copy", "joined_from_loop", "joined_through_helper", "joined_after_copy_of_iterable", "joined_unsorted_inside_tuple", "joined_unsorted_inside_yielded_tuple", "joined_from_generator_over_set"}
         want_bad_loops = {"grow_and_shrink", "grow_and_shrink_through_helper"}
-        if bad_sinks != want_bad_sinks or not {"joined_sorted", "joined_after_inplace_sort", "joined_sorted_inside_tuple", "joined_sorted_inside_yielded_tuple"} <= good_sinks:
+        if bad_sinks != want_bad_sinks or not {"joined_sorted", "joined_after_inplace_sort", "joined_sorted_inside_tuple", "joined_sorted_inside_yielded_tuple", "joined_loop_variable_reuses_name"} <= good_sinks:
             raise AnalysisError(f"C15.R3 fixture: unordered text sinks not recognised exactly (flagged {sorted(bad_sinks)}, want {sorted(want_bad_sinks)}; accepted {sorted(good_sinks)})")
         if bad_loops != want_bad_loops or not {"two_passes"} <= good_loops or "ordered_pass" in bad_loops:
             raise AnalysisError(f"C15.R3 fixture: order-dependent loop bodies not recognised exactly (flagged {sorted(bad_loops)}, want {sorted(want_bad_loops)}; accepted {sorted(good_loops)})")
@@ -1431,20 +1885,37 @@ def _reads_only_constants(repo: Repo, f: FuncInfo, depth: int = 0, stack: tuple 
     return None
 
 
-def memoised(repo: Repo) -> list[dict]:
+def memoised(repo: Repo, reach=None) -> list[dict]:
     """Functions under a caching decorator; `harmless` when the cache cannot be observed: a function (module-level, static or
     class method - no instance) of immutable arguments only, returning an immutable value (text, numbers, tuples / frozensets of
     those, a compiled pattern), computed from its arguments and immutable module / class constants only, writing nothing."""
+    key = "_c15_memoised"
+    if key in repo.__dict__:
+        return repo.__dict__[key]
     T = types_of(repo)
-    out = []
+    out = repo.__dict__[key] = []
     for f in repo.all_functions():
         decos = [d for d in f.decorators if d in CACHE_DECORATORS]
         if not decos or isinstance(f.node, ast.Lambda):
             continue
         why = []
         sn = Roots.self_name(f)
-        if "cached_property" in decos or (sn is not None and not f.is_classmethod):
-            why.append("it is bound to an instance whose state it can read: the value computed for one state of the object is served for every later one")
+        bound = "cached_property" in decos or (sn is not None and not f.is_classmethod)
+        if bound:
+            # a memo per instance: unobservable when the method is a function of its arguments and of state that is fixed
+            # once the constructor has finished (c15_memo.py), and cannot run before that
+            try:
+                eng = memo_engine(repo, reach)
+                reason = eng.pure(f) if f.cls is not None else "it is not a method of a class"
+                if reason is None and f in eng.ctor_reach(f.cls):
+                    reason = "it can run while the object is still under construction"
+            except AnalysisError:
+                raise
+            except Exception:  # noqa: BLE001
+                reason = "its body could not be analysed"
+            if reason is not None:
+                why.append(f"it is bound to an instance whose state it can read ({reason}): the value computed for one state of the object is served for every later one")
+        per_instance = "cached_property" in decos and all(d == "cached_property" for d in decos)
         for p in f.params:
             if p.arg == sn:
                 continue
@@ -1454,11 +1925,15 @@ def memoised(repo: Repo) -> list[dict]:
         rt = _immutable_type(T.return_type(f))
         if rt is not True:
             why.append("the cached result is a mutable object shared between all callers" if rt is False else "the type of the cached result is unknown")
-        if not why:
+        if not why and not bound:
             reason = _reads_only_constants(repo, f)
             if reason is not None:
                 why.append(reason)
-        out.append({"f": f, "decorators": decos, "harmless": not why, "why": why})
+        # a cached property lives and dies with its instance: when it is not provably unobservable, the write it performs on first
+        # access (the value is stored in the instance) is judged like any other write, by the ownership analysis of C15.R2 - an
+        # instance created during the evaluation may cache whatever it likes
+        harmless = (not why) if not (why and per_instance) else None
+        out.append({"f": f, "decorators": decos, "harmless": harmless, "why": why, "bound": bound})
     return out
 
 
@@ -1479,15 +1954,28 @@ def run_r4(repo: Repo, res: Result) -> None:
     ms = memoised(repo)
     for m in ms:
         f = m["f"]
+        if m["harmless"] is None:
+            res.observe(f"{f.relpath}::{f.qualname}::cache decorator: cached property that is not provably unobservable ({'; '.join(m['why'])}); the write to its instance on first access is judged by C15.R2")
+            continue
         res.add(
             "C15.R4",
             f"{f.relpath}::{f.qualname}::cache decorator",
             m["harmless"],
-            f"{f.qualname} is memoised ({', '.join(m['decorators'])}) but is not bound to an instance, takes immutable arguments only, returns an immutable value computed from them and from immutable constants, and writes nothing: the cache cannot be observed" if m["harmless"] else f"{f.qualname} is memoised ({', '.join(m['decorators'])}): results computed for one architecture / configuration are served to later calls; " + "; ".join(m["why"]),
+            (f"{f.qualname} is memoised ({', '.join(m['decorators'])}) per instance, takes immutable arguments only, returns an immutable value computed from them and from state that is fixed when the constructor has finished, cannot run before that, and writes nothing: the cache cannot be observed" if m["bound"] else f"{f.qualname} is memoised ({', '.join(m['decorators'])}) but is not bound to an instance, takes immutable arguments only, returns an immutable value computed from them and from immutable constants, and writes nothing: the cache cannot be observed") if m["harmless"] else f"{f.qualname} is memoised ({', '.join(m['decorators'])}): results computed for one architecture / configuration are served to later calls; " + "; ".join(m["why"]),
             where(f, f.node),
             kind="effect",
         )
-    bad_memo = [m for m in ms if not m["harmless"]]
+    # tables on long-lived instances that evaluations fill by key: a memo nobody can observe, or a cache that serves stale answers
+    for mt in memo_tables(repo):
+        f0, n0, _k, _v = mt.stores[0]
+        key = f"{f0.relpath}::{mt.cls.name}.{mt.attr}::instance memo table"
+        if mt.verdict == "memo":
+            res.add("C15.R4", key, True, mt.detail, where(f0, n0), kind="effect")
+        elif mt.verdict == "violated":
+            res.add("C15.R4", key, False, f"{mt.cls.name}.{mt.attr} is filled during evaluations and is not keyed completely: {mt.detail}", where(f0, n0), kind="effect")
+        else:
+            res.observe(f"{key}: not accepted as an unobservable memo ({mt.detail}); its writes are judged by C15.R2")
+    bad_memo = [m for m in ms if m["harmless"] is False]
     res.add("C15.R4", "src::no shared mutable state written inside functions", not ws and not bad_memo, f"{len(repo.funcs)} functions analysed: none writes class-level, module-level or closure state, none keeps an observable cache", kind="effect")
     # positive fixture: the rule must recognise the textbook forms (expected count on the real tree is zero)
     import shutil
@@ -1496,18 +1984,34 @@ def run_r4(repo: Repo, res: Result) -> None:
     try:
         got = {(w["f"].qualname, w["kind"]) for w in shared_state_writes(frepo)}
         want = {("Cache.lookup", "classvar"), ("Cache.lookup_through_alias", "classvar"), ("remember", "global"), ("remember_through_alias", "global"), ("Cache.via_cls", "classvar"), ("make_counter.count", "closure")}
-        clean = {"Cache.own_only", "Cache.__init__", "local_only", "local_only.note"}
+        clean = {"Cache.own_only", "Cache.__init__", "local_only", "local_only.note", "Index.__init__", "Index.rename"}
         if got != want or any(q in clean for q, _k in got):
             raise AnalysisError(f"C15.R4 fixture: shared-state writes not recognised exactly (got {sorted(got)}, want {sorted(want)})")
-        memo = {m["f"].qualname: m["harmless"] for m in memoised(frepo)}
+        memo = {m["f"].qualname: m["harmless"] for m in memoised(frepo, frepo.all_functions())}
         want_memo = {
             "pure_text": True, "shared_result": False, "state_dependent": False, "of_mutable_argument": False,
             "Patterns.body_pattern": True, "Patterns.escaped": True, "Patterns.matches_of": False, "Patterns.reads_mutable_class_state": False,
-            "Patterns.reads_mutable_module_state": False, "Patterns.of_instance": False, "Patterns.lazily": False,
+            "Patterns.reads_mutable_module_state": False, "Patterns.of_instance": True, "Patterns.lazily": True,
+            "Index.of_fixed_state": True, "Index.fixed_lazily": True, "Index.of_later_state": False, "Index.list_lazily": None,
+            "Index.during_construction": False, "Index.of_mutable_class_state": False,
         }
         if memo != want_memo:
             raise AnalysisError(f"C15.R4 fixture: memoised functions not classified as expected (got {memo}, want {want_memo})")
         res.add("C15.R4", "fixture::engine/rules/c15_fixtures/shared_state.py", True, f"positive fixture recognised: {sorted(got)}; memoised: {memo}", nontrivial=False)
+    finally:
+        shutil.rmtree(tmp, ignore_errors=True)
+    tmp, frepo = _fixture_repo("memo.py")
+    try:
+        got_m = {mt.attr.lstrip("_"): mt.verdict for mt in memo_tables(frepo, frepo.all_functions())}
+        want_m = {
+            "ok_tuple": "memo", "ok_copied": "memo", "ok_setdefault": "memo", "ok_pair": "memo", "bad_half_key": "violated", "bad_flag_ignored": "violated",
+            "other_iterated": "other", "other_handed_out": "other", "other_early": "other", "other_later_state": "other", "other_control": "other",
+            "other_derived_key": "other",
+        }
+        if got_m != want_m:
+            diff = {k: (got_m.get(k), want_m.get(k)) for k in sorted(set(got_m) | set(want_m)) if got_m.get(k) != want_m.get(k)}
+            raise AnalysisError(f"C15.R4 fixture: instance memo tables not classified as expected (table: (got, want)) {diff}")
+        res.add("C15.R4", "fixture::engine/rules/c15_fixtures/memo.py", True, f"positive fixture recognised: {got_m}", nontrivial=False)
     finally:
         shutil.rmtree(tmp, ignore_errors=True)
 
@@ -1527,7 +2031,10 @@ def selections(repo: Repo, order: "Order | None" = None) -> list[dict]:
     for f in repo.all_functions():
         if isinstance(f.node, ast.Lambda) or not any(isinstance(n, (ast.For, ast.AsyncFor, ast.While)) for n in own_nodes(f.node)):
             continue
-        v = inline_view(repo, f, T)
+        try:
+            v = sel.hoisted_view(repo, f, T)  # the inlined view, test-and-set helpers called inside `if` tests expanded as well
+        except Exception:  # noqa: BLE001
+            v = inline_view(repo, f, T)
         for info in sel.loops_of(v):
             src = getattr(info.loop, "_src", None)
             if src is not None and src[0] != f:
@@ -1627,7 +2134,7 @@ def run_r5(repo: Repo, res: Result, order: "Order | None" = None) -> None:
     tmp, frepo = _fixture_repo("selection.py")
     try:
         flagged = {s["f"].name for s in selections(frepo)[1:]}
-        want = {"bad_first_physical_location_wins", "bad_case_insensitive_first_wins", "bad_parents_retained_so_far", "bad_parents_retained_so_far_through_helper", "bad_first_three", "bad_listing_prefix_filter", "bad_flag_loop_over_retained"}
+        want = {"bad_first_physical_location_wins", "bad_case_insensitive_first_wins", "bad_parents_retained_so_far", "bad_parents_retained_so_far_through_helper", "bad_first_three", "bad_listing_prefix_filter", "bad_flag_loop_over_retained", "bad_test_and_set_helper_decides"}
         if flagged != want:
             raise AnalysisError(f"C15.R5 fixture: order-dependent selections not recognised exactly (flagged {sorted(flagged)}, want {sorted(want)})")
         res.add("C15.R5", "fixture::engine/rules/c15_fixtures/selection.py", True, f"positive fixture recognised: {sorted(flagged)}; de-duplication on the element, sorted input, tests against the complete input, grouping and closure idioms accepted", nontrivial=False)
